@@ -120,6 +120,8 @@ impl Backend {
     /// the "REPLY_ACK" flag will be set in the message header for every backend to frontend request
     /// message.
     pub fn set_reply_ack_flag(&self, enable: bool) {
+        #[cfg(feature = "verif-hooks")]
+        crate::verif::before_mutex(&self.inner, "backend_req.inner.lock");
         self.inner.lock().unwrap().reply_ack_negotiated = enable;
     }
 
@@ -128,6 +130,8 @@ impl Backend {
     /// When the `VHOST_USER_PROTOCOL_F_SHARED_OBJECT` protocol feature has been negotiated,
     /// the backend is allowed to send "SHARED_OBJECT_*" messages to the frontend.
     pub fn set_shared_object_flag(&self, enable: bool) {
+        #[cfg(feature = "verif-hooks")]
+        crate::verif::before_mutex(&self.inner, "backend_req.inner.lock");
         self.inner.lock().unwrap().shared_object_negotiated = enable;
     }
 
@@ -136,11 +140,15 @@ impl Backend {
     /// When the `VHOST_USER_PROTOCOL_F_SHMEM` protocol feature has been negotiated,
     /// the backend is allowed to send "SHMEM_{MAP, UNMAP}" messages to the frontend.
     pub fn set_shmem_flag(&self, enable: bool) {
+        #[cfg(feature = "verif-hooks")]
+        crate::verif::before_mutex(&self.inner, "backend_req.inner.lock");
         self.inner.lock().unwrap().shmem_negotiated = enable;
     }
 
     /// Mark endpoint as failed with specified error code.
     pub fn set_failed(&self, error: i32) {
+        #[cfg(feature = "verif-hooks")]
+        crate::verif::before_mutex(&self.inner, "backend_req.inner.lock");
         self.inner.lock().unwrap().error = Some(error);
     }
 }
@@ -148,6 +156,8 @@ impl Backend {
 impl VhostUserFrontendReqHandler for Backend {
     /// Forward vhost-user shared-object add request to the frontend.
     fn shared_object_add(&self, uuid: &VhostUserSharedMsg) -> HandlerResult<u64> {
+        #[cfg(feature = "verif-hooks")]
+        crate::verif::before_mutex(&self.inner, "backend_req.inner.lock");
         let mut guard = self.inner.lock().unwrap();
         if !guard.shared_object_negotiated {
             return Err(io::Error::other("Shared Object feature not negotiated"));
@@ -157,6 +167,8 @@ impl VhostUserFrontendReqHandler for Backend {
 
     /// Forward vhost-user shared-object remove request to the frontend.
     fn shared_object_remove(&self, uuid: &VhostUserSharedMsg) -> HandlerResult<u64> {
+        #[cfg(feature = "verif-hooks")]
+        crate::verif::before_mutex(&self.inner, "backend_req.inner.lock");
         let mut guard = self.inner.lock().unwrap();
         if !guard.shared_object_negotiated {
             return Err(io::Error::other("Shared Object feature not negotiated"));
@@ -170,6 +182,8 @@ impl VhostUserFrontendReqHandler for Backend {
         uuid: &VhostUserSharedMsg,
         fd: &dyn AsRawFd,
     ) -> HandlerResult<u64> {
+        #[cfg(feature = "verif-hooks")]
+        crate::verif::before_mutex(&self.inner, "backend_req.inner.lock");
         let mut guard = self.inner.lock().unwrap();
         if !guard.shared_object_negotiated {
             return Err(io::Error::other("Shared Object feature not negotiated"));
@@ -183,6 +197,8 @@ impl VhostUserFrontendReqHandler for Backend {
 
     /// Forward vhost-user memory map file request to the frontend.
     fn shmem_map(&self, req: &VhostUserMMap, fd: &dyn AsRawFd) -> HandlerResult<u64> {
+        #[cfg(feature = "verif-hooks")]
+        crate::verif::before_mutex(&self.inner, "backend_req.inner.lock");
         let mut guard = self.inner.lock().unwrap();
         if !guard.shmem_negotiated {
             return Err(io::Error::other("SHMEM feature not negotiated"));
@@ -192,6 +208,8 @@ impl VhostUserFrontendReqHandler for Backend {
 
     /// Forward vhost-user memory unmap file request to the frontend.
     fn shmem_unmap(&self, req: &VhostUserMMap) -> HandlerResult<u64> {
+        #[cfg(feature = "verif-hooks")]
+        crate::verif::before_mutex(&self.inner, "backend_req.inner.lock");
         let mut guard = self.inner.lock().unwrap();
         if !guard.shmem_negotiated {
             return Err(io::Error::other("SHMEM feature not negotiated"));
